@@ -111,13 +111,15 @@ def run(ctx):
         ok, out = ctx.lake_build(targets, timeout=7000)
         built = ok
         # the angular form = the Cartesian form (Props/C11Ang.lean: kernel certificates Cert/Ang/L0..L8 about BOTH regenerated tables)
-        ang_targets = ["E3nnVerif.Props.C11Ang"] + (["E3nnVerif.Props.C11AngExt"] if ctx.tier == "thorough" else [])
+        ang_targets = ["E3nnVerif.Props.C11Ang", "E3nnVerif.Props.C05Std"] + (["E3nnVerif.Props.C11AngExt"] if ctx.tier == "thorough" else [])
         oka, outa = ctx.lake_build(ang_targets, timeout=7000)
         if oka:
             for l in range(0, 9 if ctx.tier != "thorough" else 12):
                 ctx.obligation(f"cert:Ang.L{l} (decide +kernel: sh_l(angles_to_xyz) = sqrt(4 pi) * sha x Legendre as polynomials mod sin^2+cos^2=1)", True)
+            for l in range(12):
+                ctx.obligation(f"cert:Leg.std_{l} (decide +kernel: the Legendre rows of degree {l} are the documented formula of _sympy_legendre)", True)
             ctx.obligation("build:" + ",".join(ang_targets), True)
-            ctx.audit(["E3nnVerif.Props.C11Ang"] + [f"E3nnVerif.Cert.Ang.L{l}" for l in range(9)])
+            ctx.audit(["E3nnVerif.Props.C11Ang", "E3nnVerif.Props.C05Std", "E3nnVerif.Cert.Leg.Std"] + [f"E3nnVerif.Cert.Ang.L{l}" for l in range(9)])
         else:
             import re as _re
             bad_a = sorted(set(_re.findall(r"E3nnVerif/(Cert/Ang/\w+|Cert/Leg/\w+|Props/\w+|Sound/\w+)\.lean", outa)))
